@@ -149,10 +149,14 @@ inductive OwnerFix where
   | permFail
   deriving Repr, Inhabited
 
+/-- `DEFAULT_LOAD_RETRY_DELAY`: how long a function that may not create waits for its resource -/
+def loadRetryDelay : Int := 30
+
 structure Cfg where
   codec : Codec
   policy : Policy
   ownerFix : OwnerFix
+  createEnabled : Bool     -- `spec.create.enabled` (readonly functions are not managing and are C07's)
   createDelay : JVal
   createView : JVal        -- `resource_view` handed to `_prepare_for_api` by `_create_api_resource`
 
@@ -207,6 +211,7 @@ def passPresent (c : Cfg) (t live : JVal) : List PassResult :=
 
 /-- the pass that did not find it: `_create_api_resource` from `_prepare_for_api` on -/
 def passAbsent (c : Cfg) : List PassResult :=
+  if !c.createEnabled then [⟨none, .retry (.int loadRetryDelay), []⟩] else      -- "not found. Waiting..."
   match prepareForApi c.codec c.createView with
   | none => [⟨none, .raised, []⟩]
   | some body => [⟨some body, .retry c.createDelay, [.post body]⟩]
